@@ -63,6 +63,14 @@ for _p, _q, _t in [("C01", (2, 800), (8, 20000)), ("C02", (2, 800), (8, 20000)),
     PROPS[_p]["quick"]["vec"] = _q
     PROPS[_p]["thorough"]["vec"] = _t
 
+# run kind (B): the full-size class model enumerated exhaustively by TLC, one replayed call per state
+PROPS["C15"]["quick"]["classes"] = "Classes_C15_quick.cfg"
+PROPS["C15"]["thorough"]["classes"] = "Classes_C15_thorough.cfg"
+PROPS["C18"]["quick"]["classes"] = "Classes_C18_quick.cfg"
+PROPS["C18"]["thorough"]["classes"] = "Classes_C18_thorough.cfg"
+PROPS["C04"]["quick"]["classes"] = "Classes_C04_quick.cfg"
+PROPS["C04"]["thorough"]["classes"] = "Classes_C04_quick.cfg"
+
 # the foundations of every oracle: BigNat against native integers, the three rounding formulations against each other
 PROPS["C02"]["quick"]["models"] = PROPS["C02"]["quick"]["models"] + [("MC_Dec.tla", "MC_Dec_quick.cfg")]
 PROPS["C01"]["thorough"]["models"] = PROPS["C01"]["thorough"]["models"] + [("MC_Dec.tla", "MC_Dec.cfg"), ("MC_BigNat.tla", "MC_BigNat.cfg")]
